@@ -217,23 +217,22 @@ func (r *Module) Configure(config core.ServerConfig) error {
 }
 
 func (r *Module) Start() error {
-	// nothing to start if did:nuts is disabled
-	if r.networkAmbassador == nil {
-		return nil
-	}
-	err := r.networkAmbassador.Start()
-	if err != nil {
-		return err
+	// the ambassador is only there if did:nuts is enabled
+	if r.networkAmbassador != nil {
+		if err := r.networkAmbassador.Start(); err != nil {
+			return err
+		}
 	}
 
-	// start DID Document rollback loop
+	// start DID Document rollback loop. Also needed if did:nuts is disabled:
+	// changes of an operation that was interrupted (process stopped, DB failure) remain in the change log and block the subject.
 	r.routines.Add(1)
 	go func() {
 		defer r.routines.Done()
 		r.rollbackLoop()
 	}()
 
-	return err
+	return nil
 }
 
 // rollbackLoop checks every minute if there are any DID documents that need to be rolled back.
